@@ -113,6 +113,16 @@ func RangeOnEdge(e Edge, is func(ssa.Value) bool) Range {
 func applyCmp(r *Range, e Edge, cond ssa.Value, truth bool, is func(ssa.Value) bool) {
 	bo, ok := cond.(*ssa.BinOp)
 	if !ok {
+		// a boolean helper / boolean variable: apply the comparisons that necessarily held inside it
+		if !applyCmpExpanding {
+			applyCmpExpanding = true
+			impliedConds(cond, truth, 2, func(c2 ssa.Value, t2 bool) {
+				if _, isB := c2.(*ssa.BinOp); isB {
+					applyCmp(r, e, c2, t2, is)
+				}
+			})
+			applyCmpExpanding = false
+		}
 		return
 	}
 	op := bo.Op
